@@ -147,7 +147,13 @@ def routes_case(rep, drv, r, t, v):
         rep.corr_checked += 1
         if me[0] == 'ok' and not ref[cdc].startswith('err'):
             if me[1].hex() != ref[cdc]:
-                rep.disagree('ENC', dict(replay, codec=cdc), me[1].hex(), ref[cdc])
+                if sigs.has_constructed_default(t):
+                    # T11: `component == default` on constructed values (e.g. Choice.__eq__ compares the
+                    # components whatever the alternative) omits or keeps the member wrongly; the codec
+                    # model compares abstract content
+                    rep.count('enc-corr-in-T11-region')
+                else:
+                    rep.disagree('ENC', dict(replay, codec=cdc), me[1].hex(), ref[cdc])
         elif (me[0] == 'ok') != (not ref[cdc].startswith('err')):
             if classify(t, v, ref[cdc]) is None:
                 rep.disagree('ENC', dict(replay, codec=cdc), repr(me[:2]), ref[cdc])
